@@ -110,3 +110,32 @@ Theorem C01_bsubst_scalar : forall r,
   forallb is_scalar r = true -> is_scalar (fst (bsubst r)) = true.
 Proof. exact bsubst_scalar. Qed.
 Print Assumptions C01_bsubst_scalar.
+
+(* ---- fuel is only a termination device: it is never observable (Proofs/FuelFacts.v) ---- *)
+From Molt Require Import Proofs.FuelFacts.
+
+(* a run that finished gives the same state and result with any larger fuel *)
+Theorem C01_fuel_monotone : forall U f f' st s st' r,
+  (f <= f')%nat -> eval U f st s = (st', r) -> r <> Fuel -> eval U f' st s = (st', r).
+Proof. exact eval_fuel_mono. Qed.
+Print Assumptions C01_fuel_monotone.
+Theorem C01_expr_fuel_monotone : forall U f f' st e st' r,
+  (f <= f')%nat -> expr U f st e = (st', r) -> r <> Fuel -> expr U f' st e = (st', r).
+Proof. exact expr_fuel_mono. Qed.
+Print Assumptions C01_expr_fuel_monotone.
+(* two finished runs agree whatever their fuels *)
+Theorem C01_fuel_unobservable : forall U f1 f2 st s st1 r1 st2 r2,
+  eval U f1 st s = (st1, r1) -> r1 <> Fuel ->
+  eval U f2 st s = (st2, r2) -> r2 <> Fuel ->
+  (st1, r1) = (st2, r2).
+Proof. exact eval_fuel_unobservable. Qed.
+Print Assumptions C01_fuel_unobservable.
+(* the readers: any fuel above the stated bound gives the reader's answer *)
+Theorem C01_parse_fuel_irrelevant : forall isa s f,
+  (parse_fuel s <= f)%nat -> parse_script isa f false s [] = parse isa s.
+Proof. exact parse_fuel_irrelevant. Qed.
+Print Assumptions C01_parse_fuel_irrelevant.
+Theorem C01_list_fuel_irrelevant : forall s f,
+  (S (length s) <= f)%nat -> parse_list f s [] = get_list s.
+Proof. exact get_list_fuel_irrelevant. Qed.
+Print Assumptions C01_list_fuel_irrelevant.
